@@ -731,7 +731,7 @@ def main(chk: Check):
     work = tempfile.mkdtemp(prefix="verif_c29w_")
     results, py_bad = [], []
     # objects torn by a simulated crash complain in __del__ (AtomicWriteFile.discard): not our business
-    hook, sys.unraisablehook = sys.unraisablehook, lambda *a: None
+    sys.unraisablehook = lambda *a: None
     try:
         for i, sc in enumerate(scenarios(chk)):
             wdir = os.path.join(work, f"s{i}")
@@ -749,9 +749,6 @@ def main(chk: Check):
             results.append(res)
             py_bad += judge(chk, res)
     finally:
-        import gc
-        gc.collect()
-        sys.unraisablehook = hook
         shutil.rmtree(work, ignore_errors=True)
     chk.cov["t_scenarios_s"] = round(time.time() - chk.t0, 1)
     evaluate(chk, ok, results, py_bad)
@@ -831,7 +828,7 @@ def evaluate(chk, ok, results, py_bad):
                                                  "view": results[i]["views"][k][0]}})
 
 
-def eval_sharded(chk, pre, cases, meta, nsc, per_shard=3):
+def eval_sharded(chk, pre, cases, meta, nsc, per_shard=2):
     """one coq_eval per group of scenarios, run concurrently; returns global index lists"""
     import concurrent.futures as cf
 
